@@ -12,6 +12,7 @@ from __future__ import annotations
 
 from harness import core
 from harness.core import Atom
+from harness.gen import autoesc_envways as W
 from harness.gen import autoesc_terms as T
 
 ID = "C16"
@@ -190,9 +191,40 @@ def run_recursive(ctx, res, jinja2):
     return {"renders": 2 * len(cases), "nontrivial": nontrivial, "forms": sorted(LOOP_FORMS), "tree_depth": "3-4"}
 
 
+def run_envways(ctx, res, jinja2):
+    """exactly-once through environments reached by overlays of fresh / used parents etc., templates loaded by name"""
+    rng = ctx.rng("envways")
+    scenarios = W.plan(rng, ctx.pick(20, 300))
+    data = {"x": rng.choice(["a&amp;b<m1>", "&lt;<"]), "y": rng.choice(["&#39;<", "&amp;&"])}
+    uses = []
+    for k, sc in enumerate(scenarios):
+        for way, i, kind, name, out, fresh in W.execute(jinja2, sc, data):
+            if name in ("page.html", "child.html") and W.effective_on(kind, name) and not out.startswith("raised:"):
+                uses.append((k, way, kind, name, out))
+    # page.html / child.html use only escaping-neutral constructs apart from |upper: compare on a variant without it
+    off = {}
+    for name in ("page.html", "child.html"):
+        env = jinja2.Environment(loader=W.make_loader(jinja2, "dict"), autoescape=False)
+        off[name] = env.get_template(name).render(**data)
+    un = core.driver_batch([[Atom("autoesc"), Atom("unescape"), u[4]] for u in uses])
+    for (k, way, kind, name, out), rep in zip(uses, un):
+        if neutral_part(rep[1]) != neutral_part(off[name]):
+            res.violate(f"C16:once:envway:{way}", f"environment reached by {way} (autoescape={kind}): unescape(get_template({name!r}).render) = "
+                        f"{rep[1]!r} but the render without autoescape is {off[name]!r}; history {scenarios[k]}",
+                        {"scenario": scenarios[k], "data": data, "name": name, "way": way})
+    return {"renders": len(uses), "scenarios": len(scenarios)}
+
+
+def neutral_part(s):
+    """page.html's third field is `x|upper` (not escaping-neutral: entity names change case); it is left out of the comparison"""
+    parts = s.split("|")
+    return parts[:2] + parts[3:] if len(parts) > 3 else parts
+
+
 def run(ctx, res):
     jinja2 = core.import_jinja()
     rec = run_recursive(ctx, res, jinja2)
+    ways = run_envways(ctx, res, jinja2)
     n = ctx.pick(1200, 12000)
     cases = [make_case(ctx, i) for i in range(n)]
     replies = core.driver_batch([[Atom("autoesc"), Atom("eval"), T.enc(c["term"]), c["data"]] for c in cases])
@@ -228,7 +260,8 @@ def run(ctx, res):
         if m_un != m_off:
             raise core.HarnessError(f"model violates its own theorem on {replay}")
     res.coverage.update({
-        "evaluations": 2 * len(cases) + rec["renders"],
+        "evaluations": 2 * len(cases) + rec["renders"] + ways["renders"],
+        "environment_ways": ways,
         "distinct_nontrivial": len(nontrivial) + rec["nontrivial"],
         "recursive_loops": rec,
         "rule": ("random well-sorted terms of the neutral fragment (depth 2-4 quick / 2-5 thorough) over 1-3 context strings drawn from a "
@@ -247,6 +280,8 @@ def run(ctx, res):
 def replay(ctx, case):
     jinja2 = core.import_jinja()
     c = case["case"]
+    if isinstance(c, dict) and "scenario" in c:
+        return [{"way": w, "autoescape": k, "name": n, "render": o} for w, i, k, n, o, f in W.execute(jinja2, c["scenario"], c["data"])]
     if isinstance(c, dict) and "loop_form" in c:
         out = {}
         for on in (True, False):
